@@ -425,4 +425,28 @@ def build(props=("C13", "C14")):
         exsures={"ValueError": {"why": "not (isinstance(compresslevel, int) and 1 <= compresslevel and compresslevel <= 9) or not (mode == 'rb' or mode == 'wb')"},
                  "TypeError": {"why": "isinstance(filename, int)"}},
     ))
+    # ---- coverage of the class body: the property speaks about read(n), read(), readinto, readline, tell, seek, write, close - readline /
+    # readlines / iteration / peek / read1 are INHERITED from io.BufferedIOBase (built on read) as long as the class does not override them.
+    # A method appearing in the class body that is neither under contract here nor one of the trivial predicates is code this pack says
+    # nothing about: UNDECIDED, not a pass (seeded change C13-readline-buffer-shortcut added a readline override).
+    def class_body_coverage(pack):
+        import ast as _ast
+        from pyvc.contracts import SourceModule
+        mod = SourceModule.get(F)
+        under = {k[1].split(".", 1)[1] for k in pack.contracts if k[1].startswith("BinaryZlibFile.")}
+        trivial = {"closed", "fileno", "seekable", "readable", "writable", "_check_not_closed", "_check_can_read", "_check_can_write", "_check_can_seek", "readinto"}
+        out = []
+        for cname in ("BinaryZlibFile", "BinaryGzipFile"):
+            cls = mod.classes.get(cname)
+            if cls is None:
+                out.append(("%s/class-body-readable" % cname, False, "class not found"))
+                continue
+            defined = {n.name for n in cls.body if isinstance(n, (_ast.FunctionDef, _ast.AsyncFunctionDef))}
+            extra = sorted(defined - under - trivial)
+            out.append(("%s/every-stream-method-of-the-class-body-is-under-contract" % cname, True if not extra else None,
+                        "methods outside the contracts of this pack: %s" % (extra or "none")))
+        return out
+
+    class_body_coverage.props = ["C13", "C14"]
+    p.structural = list(getattr(p, "structural", [])) + [class_body_coverage]
     return p
